@@ -93,3 +93,20 @@ CASES += [
         ("quantarhei/core/frequency.py", "        axis = FrequencyAxis(self.start, self.length, self.step,\n                             atype=self.atype, time_start=self.time_start)",
          "        with energy_units(\"int\"):\n            axis = FrequencyAxis(self.start, self.length, self.step,\n                                 self.atype, self.time_start)", 1)]},
 ]
+
+_TM13 = "quantarhei/core/time.py"
+_SH13 = "            self.data[:] = self.data[:] - self.start\n            self.start = 0.0\n"
+CASES += [
+    {"name": "start reset before it is subtracted (seeded change of round 8)", "kind": "mutant", "rule": "C13-G", "edits": [
+        (_TM13, _SH13, "            self.start = 0.0\n            self.data[:] = self.data[:] - self.start\n", 1)]},
+    {"name": "start reset before the minimum (a property reading it) is subtracted (seeded change of round 8)", "kind": "mutant", "rule": "C13-G", "edits": [
+        (_TM13, _SH13, "            self.start = 0.0\n            self.data[:] = self.data[:] - self.min\n", 1)]},
+    {"name": "points moved, description left", "kind": "mutant", "rule": "C13-G", "edits": [
+        (_TM13, _SH13, "            self.data[:] = self.data[:] - self.start\n", 1)]},
+    {"name": "description moved, points left", "kind": "mutant", "rule": "C13-G", "edits": [
+        (_TM13, _SH13, "            self.start = 0.0\n", 1)]},
+    {"name": "old start kept in a local before the reset", "kind": "twin", "edits": [
+        (_TM13, _SH13, "            s0 = self.start\n            self.start = 0.0\n            self.data[:] = self.data[:] - s0\n", 1)]},
+    {"name": "points moved in place by the first point", "kind": "twin", "edits": [
+        (_TM13, _SH13, "            self.data -= self.data[0]\n            self.start = 0.0\n", 1)]},
+]
